@@ -125,7 +125,7 @@ def liveness(chk, tier):
         rc, text, wall = tlc.run(tla, cfgp, wd, workers=8, timeout=1800)
         violated = bool(re.search(r"Temporal propert(y \S+ was|ies were) violated", text))
         if rc != 0 and not violated:
-            raise tlc.MachineryError("liveness check failed to run (rc=%s):\n%s" % (rc, text[-1500:]))
+            raise tlc.MachineryError("liveness check failed to run (rc=%s):\n%s" % (rc, tlc.describe(text)))
         res = tlc.MCResult(0, text, wall)
         if not kf:
             chk.add_model("Group_Live", res, {"KF_SwallowFatal": False, "constraint": "rtimers <= 3", "fairness": "WF of each fault-free event kind"},
